@@ -16,6 +16,7 @@ Inductive sev :=
 | SCb (c cb r k : Z)         (* callback registered for request cb of client c received conclusion (r, k) *)
 | SNoCb (c r k : Z)
 | SNew (c : Z) | SGone (c : Z)   (* application connect / disconnect handlers *)
+| SDrop (c : Z)                  (* ghost (not observable): the session of client c ends, whatever it had outstanding is forgotten *)
 | SPanic.
 
 Inductive ctxst := CActive | CInactive.
@@ -146,7 +147,7 @@ Definition sstep (l : slab) (s : sv) : sv :=
         let s1 := upd_run s false true (pumpAlive s) (pumpStuck s) in
         (* ws server Stop: every connection is closed and reported *)
         let cs := conns s1 in
-        fold_left (fun st c => on_disconnected st c) cs (upd_conns s1 [])
+        fold_left (fun st c => on_disconnected (semit st (SDrop c)) c) cs (upd_conns s1 [])
       else s
   | Connect c =>
       if mem c (conns s) then s else
@@ -154,7 +155,7 @@ Definition sstep (l : slab) (s : sv) : sv :=
       let s2 := if running s1 then (match qof s1 c with Some _ => s1 | None => upd_qm s1 (a_set (qm s1) c []) end) else s1 in
       semit s2 (SNew c)
   | Disconnect c =>
-      if mem c (conns s) then on_disconnected (upd_conns s (del c (conns s))) c else s
+      if mem c (conns s) then on_disconnected (semit (upd_conns s (del c (conns s))) (SDrop c)) c else s
   | SSend c r valid =>
       let s1 := set_cbs s c (cbs_of s c ++ [r]) in
       let full := match qof s1 c with Some l => (qcap s1 <=? zlen l) && (0 <? qcap s1) | None => false end in
@@ -258,11 +259,12 @@ Definition senc (e : sev) : list Z :=
   | SNew c => [5; c]
   | SGone c => [6; c]
   | SConc _ _ _ => []
+  | SDrop _ => []
   | SPanic => [-7]
   end.
 
 Definition scls (e : sev) : Z :=
-  match e with SRet _ _ _ => 1 | SWr _ _ => 2 | SCb _ _ _ _ | SNoCb _ _ _ | SPanic => 3 | SNew _ | SGone _ => 4 | SConc _ _ _ => 0 end.
+  match e with SRet _ _ _ => 1 | SWr _ _ => 2 | SCb _ _ _ _ | SNoCb _ _ _ | SPanic => 3 | SNew _ | SGone _ => 4 | SConc _ _ _ | SDrop _ => 0 end.
 
 (** insertion sort of encoded callbacks (their goroutines are unordered) *)
 Fixpoint lexle (a b : list Z) : bool :=
